@@ -642,6 +642,212 @@ func (g *c08gen) oddDates() *TNode {
 	return t
 }
 
+// ---------- inputs that share node objects; inputs edited between two diffs ----------
+
+// c08build builds real nodes and remembers which object was built for which abstract node
+func c08build(t *TNode, m map[*TNode]gedcom.Node) (n gedcom.Node, err error) {
+	defer func() {
+		if r := recover(); r != nil {
+			err = fmt.Errorf("panic: %v", r)
+		}
+	}()
+	n = gedcom.NewNode(gedcom.TagFromString(t.Tag), t.Value, t.Ptr)
+	for _, k := range t.Kids {
+		kn, e := c08build(k, m)
+		if e != nil {
+			return nil, e
+		}
+		n.AddNode(kn)
+	}
+	m[t] = n
+	return n, nil
+}
+
+// c08shared: the right input is assembled from node objects of the left input (shared by
+// reference), fresh copies and new nodes. The left input has Equal siblings with different
+// children (two BIRT, two SOUR @S1@ citations, two RESI with the same date, two equal NOTEs), which
+// the left pass merges into one entry — so "the entries below a shared node are that node's
+// children" is false.
+func c08shared(c *Ctx, g *c08gen, ops string) {
+	pairs := [][2]*TNode{
+		{T("BIRT", "", "", T("DATE", "3 Sep 1943", "")), T("BIRT", "", "", T("PLAC", "England", ""))},
+		{T("SOUR", "@S1@", "", T("PAGE", "12", "")), T("SOUR", "@S1@", "", T("PAGE", "14", ""), T("NOTE", "a", ""))},
+		{T("RESI", "", "", T("DATE", "1900", ""), T("PLAC", "Paris", "")), T("RESI", "", "", T("DATE", "1900", ""), T("NOTE", "b", ""))},
+		{T("NOTE", "a", "", T("ZZA", "1", "")), T("NOTE", "a", "", T("ZZB", "2", ""), T("ZZA", "1", "", T("TITL", "x y", "")))},
+		{T("DEAT", "", ""), T("DEAT", "Y", "", T("DATE", "1901", ""), T("PLAC", "England", ""))},
+	}
+	lt := T("ZROOT", "", "", T("NAME", "John /Smith/", ""))
+	for _, p := range pairs {
+		if g.r.Chance(3, 5) {
+			a, b := p[0].Clone(), p[1].Clone()
+			if g.r.Bool() {
+				a, b = b, a
+			}
+			lt.Kids = append(lt.Kids, a)
+			if g.r.Chance(1, 3) {
+				bd := 4
+				lt.Kids = append(lt.Kids, g.tree(g.r.Pick(c08level1Tags), 1, 3, &bd))
+			}
+			lt.Kids = append(lt.Kids, b)
+		}
+	}
+	if len(lt.Kids) < 3 {
+		lt.Kids = append(lt.Kids, pairs[0][0].Clone(), pairs[0][1].Clone())
+	}
+	m := map[*TNode]gedcom.Node{}
+	ln, err := c08build(lt, m)
+	if err != nil {
+		c.Count("skipped: tree cannot be built standalone")
+		return
+	}
+	rn := gedcom.NewNode(gedcom.TagFromString(lt.Tag), lt.Value, lt.Ptr)
+	shared := 0
+	for _, i := range g.r.Perm(len(lt.Kids)) {
+		k := lt.Kids[i]
+		switch x := g.r.Intn(10); {
+		case x < 5: // the very same object
+			rn.AddNode(m[k])
+			shared++
+		case x < 7: // a fresh copy
+			if cp, e := c08build(k.Clone(), map[*TNode]gedcom.Node{}); e == nil {
+				rn.AddNode(cp)
+			}
+		case x < 8: // a new header over the same child objects
+			h := gedcom.NewNode(gedcom.TagFromString(k.Tag), k.Value, k.Ptr)
+			for _, kk := range k.Kids {
+				h.AddNode(m[kk])
+				shared++
+			}
+			rn.AddNode(h)
+		}
+	}
+	if shared == 0 {
+		rn.AddNode(m[lt.Kids[len(lt.Kids)-1]])
+	}
+	c08run(c, "inputs sharing node objects", ln, rn, ops)
+}
+
+// c08history: CompareNodes, then children of RESI / EVEN / BIRT nodes are edited through the API
+// (DeleteNode, AddNode, SetNodes), then CompareNodes again. The second comparison is tied to the
+// model on the trees as they are now, and must be the comparison of freshly built trees with the
+// same content: what Equals / Dates() remembered about a node before the edit must not show.
+func c08history(c *Ctx, g *c08gen) {
+	dates := []string{"1 Jan 1900", "5 Mar 1910", "1900", "Sep 1943", "3 Sep 1943", "unknown", "(about the war)"}
+	lt := T("ZROOT", "", "", T("NAME", "John /Smith/", ""))
+	for n := g.r.Range(1, 4); n > 0; n-- {
+		e := T(g.r.Pick([]string{"RESI", "RESI", "EVEN", "BIRT", "EVEN"}), "", "")
+		for q := g.r.Range(1, 2); q > 0; q-- {
+			e.Kids = append(e.Kids, T("DATE", g.r.Pick(dates), ""))
+		}
+		if g.r.Chance(2, 3) {
+			e.Kids = append(e.Kids, T("PLAC", g.r.Pick([]string{"Leeds", "Paris", "England"}), ""))
+		}
+		if g.r.Chance(1, 3) {
+			e.Kids = append(e.Kids, T("NOTE", g.r.Pick(c08values[""]), ""))
+		}
+		lt.Kids = append(lt.Kids, e)
+	}
+	rt := c08permute(g.r, lt)
+	// the right copy starts with some dates / places changed; the edit puts the left's values back
+	type fix struct {
+		parent *TNode
+		child  *TNode
+		value  string
+	}
+	var fixes []fix
+	for _, e := range rt.Kids {
+		for _, k := range e.Kids {
+			if (k.Tag == "DATE" || k.Tag == "PLAC") && g.r.Chance(1, 2) {
+				orig := k.Value
+				if k.Tag == "DATE" {
+					k.Value = g.r.Pick(dates)
+				} else {
+					k.Value = g.r.Pick([]string{"Leeds", "Paris", "York"})
+				}
+				if k.Value != orig {
+					fixes = append(fixes, fix{e, k, orig})
+				}
+			}
+		}
+	}
+	lm, rm := map[*TNode]gedcom.Node{}, map[*TNode]gedcom.Node{}
+	ln, e1 := c08build(lt, lm)
+	rn, e2 := c08build(rt, rm)
+	if e1 != nil || e2 != nil {
+		return
+	}
+	c08run(c, "edit between two diffs (before the edit)", ln, rn, g.r.Pick([]string{"", "C", "O", "SE"}))
+	// what a caller does between two diffs: read the dates, correct them
+	var script []string
+	for _, s := range []*c08side{c08number(ln), c08number(rn)} {
+		for _, n := range s.nodes {
+			gedcom.Dates(n)
+			gedcom.Dates(n)
+		}
+	}
+	for _, f := range fixes {
+		p, k := rm[f.parent], rm[f.child]
+		switch g.r.Intn(3) {
+		case 0, 1: // DeleteNode + AddNode
+			p.DeleteNode(k)
+			p.AddNode(gedcom.NewNode(gedcom.TagFromString(f.child.Tag), f.value, ""))
+			script = append(script, fmt.Sprintf("right %s: DeleteNode(%s %s); AddNode(%s %s)", f.parent.Tag, f.child.Tag, f.child.Value, f.child.Tag, f.value))
+		default: // SetNodes with the child replaced
+			var ns gedcom.Nodes
+			for _, x := range p.Nodes() {
+				if x == k {
+					ns = append(ns, gedcom.NewNode(gedcom.TagFromString(f.child.Tag), f.value, ""))
+				} else {
+					ns = append(ns, x)
+				}
+			}
+			p.SetNodes(ns)
+			script = append(script, fmt.Sprintf("right %s: SetNodes(… %s %s -> %s …)", f.parent.Tag, f.child.Tag, f.child.Value, f.value))
+		}
+	}
+	// and some edits that make the sides differ: a date of a left event changed or removed
+	if g.r.Chance(1, 2) && len(lt.Kids) > 1 {
+		e := lt.Kids[1+g.r.Intn(len(lt.Kids)-1)]
+		for _, k := range e.Kids {
+			if k.Tag == "DATE" {
+				p := lm[e]
+				p.DeleteNode(lm[k])
+				script = append(script, fmt.Sprintf("left %s: DeleteNode(DATE %s)", e.Tag, k.Value))
+				if g.r.Bool() {
+					v := g.r.Pick(dates)
+					p.AddNode(gedcom.NewNode(gedcom.TagDate, v, ""))
+					script = append(script, fmt.Sprintf("left %s: AddNode(DATE %s)", e.Tag, v))
+				}
+				break
+			}
+		}
+	}
+	c.Count(fmt.Sprintf("history: %d API edits between the diffs", len(script)))
+	// the diff of the edited objects against the diff of freshly built trees with the same content
+	cur := func() (s string, deep bool) {
+		defer func() {
+			if r := recover(); r != nil {
+				s = fmt.Sprintf("panic: %v", r)
+			}
+		}()
+		d := gedcom.CompareNodes(ln, rn)
+		return d.String(), d.IsDeepEqual()
+	}
+	got, gotDeep := cur()
+	fl, e3 := newPlain(abstractNode(ln))
+	fr, e4 := newPlain(abstractNode(rn))
+	if e3 == nil && e4 == nil {
+		fd := gedcom.CompareNodes(fl, fr)
+		if want := fd.String(); want != got || fd.IsDeepEqual() != gotDeep {
+			c.Oracle("", "after editing a compared tree through the API, CompareNodes is not the comparison of the trees as they are now",
+				map[string]interface{}{"stream": "edit between two diffs", "left now": gedcom.GEDCOMString(ln, 0), "right now": gedcom.GEDCOMString(rn, 0),
+					"left before": c08gedcom(lt), "right before": c08gedcom(rt), "edits": script},
+				got, "the diff of freshly built trees with the same content:\n"+want)
+		}
+	}
+	c08run(c, "edit between two diffs (after the edit)", ln, rn, g.randOps())
+}
+
 // ---------- running the implementation ----------
 
 type c08side struct {
@@ -702,15 +908,19 @@ func (s *c08side) changed() bool {
 	return !ok || enc != s.enc0
 }
 
-func c08slot(n gedcom.Node, l, r *c08side) string {
+// c08slot names the node an entry holds by identity. The two inputs may share node objects (nothing
+// in the API copies a node that is added to a second parent), so the node of the Left slot is looked
+// up in the left input first and the node of the Right slot in the right input first: a shared
+// node is "l<i>" on the left and "r<j>" on the right, a node of the wrong input keeps its true name.
+func c08slot(n gedcom.Node, own, other *c08side, ownName, otherName string) string {
 	if gedcom.IsNil(n) {
 		return "-"
 	}
-	if i, ok := l.ids[n]; ok {
-		return fmt.Sprintf("l%d", i)
+	if i, ok := own.ids[n]; ok {
+		return fmt.Sprintf("%s%d", ownName, i)
 	}
-	if i, ok := r.ids[n]; ok {
-		return fmt.Sprintf("r%d", i)
+	if i, ok := other.ids[n]; ok {
+		return fmt.Sprintf("%s%d", otherName, i)
 	}
 	return "?"
 }
@@ -719,7 +929,7 @@ func c08dump(d *gedcom.NodeDiff, l, r *c08side) string {
 	var parts []string
 	var walk func(e *gedcom.NodeDiff, depth int)
 	walk = func(e *gedcom.NodeDiff, depth int) {
-		parts = append(parts, fmt.Sprintf("%d:%s:%s", depth, c08slot(e.Left, l, r), c08slot(e.Right, l, r)))
+		parts = append(parts, fmt.Sprintf("%d:%s:%s", depth, c08slot(e.Left, l, r, "l", "r"), c08slot(e.Right, r, l, "r", "l")))
 		for _, c := range e.Children {
 			walk(c, depth+1)
 		}
@@ -1311,6 +1521,14 @@ func init() {
 			}
 		}
 
+		// 1c. inputs that share node objects; inputs edited through the API between two diffs
+		for i := c.N(1200, 15000); i > 0; i-- {
+			c08shared(c, g, g.randOps())
+		}
+		for i := c.N(900, 12000); i > 0; i-- {
+			c08history(c, g)
+		}
+
 		// 1a. RESI / EVEN with unparsable, phrase, empty and mixed dates
 		for i := c.N(1500, 20000); i > 0; i-- {
 			a := g.oddDates()
@@ -1333,7 +1551,7 @@ func init() {
 		}
 
 		// 2. random pairs, random orders
-		n := c.N(28000, 400000)
+		n := c.N(23000, 400000)
 		for i := 0; i < n; i++ {
 			a := g.root()
 			ops := g.randOps()
